@@ -560,6 +560,10 @@ static RefTrace ref_trace(const Cfg& cfg, const std::vector<cld>& x, const std::
 // all compositions of G granules x all lock flags per frame, each on a fresh real object.  Two oracles per history:
 // (1) the lock-aware long-double recursion, sample by sample (independent of the implementation), and
 // (2) the per-sample drive of the real object (itself checked for a-priori ordering) under the induced lock pattern.
+// coeffs() read policies of a history: when the accessor is called matters for implementations that cache it
+enum { POL_EVERY = 0, POL_END = 1, POL_AFTER_LOCKED = 2, NPOL = 3 };
+static const char* POLNAME[] = {"every_frame", "end_only", "after_locked_frames"};
+
 template<class T>
 static void hist_case(Ctx& ctx, const Cfg& cfg, uint64_t cfg_hash, const std::vector<cld>& x, const std::vector<cld>& d, int G, int gs) {
     const char* site = cfg.kind == K_RLS ? "RlsFilter.process" : "LmsFilter.process";
@@ -577,7 +581,7 @@ static void hist_case(Ctx& ctx, const Cfg& cfg, uint64_t cfg_hash, const std::ve
         if (so.ref_allowed) rts[m] = ref_trace(cfg, x, d, lock, so.condmax);
         if (!step_drive<T>(ctx, cfg, cfg_hash, x, d, lock, so, model[m], P().kv("drive", "per-sample").kv("lockmask", m))) return;
     }
-    long long bitident = 0, frames = 0, lockedframes = 0, refcmp = 0, refskip = 0;
+    long long bitident = 0, frames = 0, lockedframes = 0, refcmp = 0, refskip = 0, reads[NPOL] = {0, 0, 0};
     const std::string refkey = std::string("hist: ") + KNAME[cfg.kind] + " history vs lock-aware long-double recursion, rel err";
     // compositions: bit i of comp set = frame boundary after granule i (i = 0..G-2)
     for (int comp = 0; comp < (1 << (G - 1)); ++comp) {
@@ -589,144 +593,180 @@ static void hist_case(Ctx& ctx, const Cfg& cfg, uint64_t cfg_hash, const std::ve
         }
         fs.push_back(run);
         const int F = (int)fs.size();
-        for (int lk = 0; lk < (1 << F); ++lk) {
-            int mask = 0, g0 = 0;
-            for (int i = 0; i < F; ++i) {
-                if ((lk >> i) & 1)
-                    for (int g = g0; g < g0 + fs[i]; ++g) mask |= 1 << g;
-                g0 += fs[i];
-            }
-            const Trace<T>& mt = model[mask];
-            const RefTrace& rt = rts[mask];
-            Filt<T> f(cfg);
-            int pos = 0;
-            auto detail = [&](const char* sub, int fi, int k) {
-                return P().kv("sub", sub).kv("framing", comp).kv("locks", lk).kv("frame", fi).kv("k", k);
-            };
-            bool stop = false;
-            for (int fi = 0; fi < F && !stop; ++fi) {
-                const bool locked = (lk >> fi) & 1;
-                const int len = fs[fi] * gs;
-                f.lock(locked);
-                const base_array<T> cb = f.coeffs();
-                base_array<T> y, e;
-                f.process(to_frame<T>(x, pos, pos + len), to_frame<T>(d, pos, pos + len), y, e);
-                ++ctx.transitions;
-                ++frames;
-                ctx.state(f.state_hash(cfg_hash));
-                if (y.size() != len || e.size() != len || cb.size() != L) {
-                    ctx.fail(site, fmt("result sizes y=%d e=%d coeffs=%d", y.size(), e.size(), cb.size()), fmt("%d, %d, %d", len, len, L), detail("size", fi, pos));
-                    return;
+        for (int lk = 0; lk < (1 << F); ++lk)
+            for (int pol = 0; pol < NPOL; ++pol) {
+                int mask = 0, g0 = 0;
+                for (int i = 0; i < F; ++i) {
+                    if ((lk >> i) & 1)
+                        for (int g = g0; g < g0 + fs[i]; ++g) mask |= 1 << g;
+                    g0 += fs[i];
                 }
-                bool same = true;
-                for (int i = 0; i < len; ++i) {
-                    const int k = pos + i;
-                    if (!TT<T>::fin(y[i]) || !TT<T>::fin(e[i])) {
-                        if (so.ref_allowed) {
-                            ctx.fail(site, "non-finite y/e for a stable configuration", "finite", detail("finite", fi, k));
-                            return;
-                        }
-                        stop = true;
-                        break;
+                const Trace<T>& mt = model[mask];
+                const RefTrace& rt = rts[mask];
+                Filt<T> f(cfg);
+                int pos = 0;
+                auto detail = [&](const char* sub, int fi, int k) {
+                    return P().kv("sub", sub).kv("framing", comp).kv("locks", lk).kv("reads", POLNAME[pol]).kv("frame", fi).kv("k", k);
+                };
+                // a value returned by coeffs() after sample ke: size, agreement with the lock-aware reference
+                auto check_read = [&](const base_array<T>& c, int fi, int ke) -> bool {
+                    ++reads[pol];
+                    if (c.size() != L) {
+                        ctx.fail(site, fmt("coeffs() has %d entries (read policy %s)", c.size(), POLNAME[pol]), fmt("%d", L), detail("size", fi, ke));
+                        return false;
                     }
-                    const T ee = TT<T>::down(d[k]) - y[i];
-                    if (!same_bits(ee, e[i])) {
-                        ctx.fail(site, fmt("e[%d] differs from d - y in a %d-sample frame", i, len), "e[k] = d[k] - y[k] bit-exactly", detail("e_identity", fi, k));
-                        return;
+                    if (!so.ref_allowed || ke < 0 || !rt.valid[ke]) return true;
+                    ld dn = 0;
+                    for (int j = 0; j < L; ++j) dn += std::norm(TT<T>::up(c[j]) - rt.w[(size_t)ke * L + j]);
+                    const ld rc = rt.wn[ke] > 0 ? sqrtl(dn) / rt.wn[ke] : (dn > 0 ? 1 : 0);
+                    ctx.worst(refkey, (double)rc);
+                    if (rc > REL) {
+                        ctx.fail(site, fmt("coeffs() read after frame %d (sample %d, read policy %s) deviates from the lock-aware reference recursion by %.3Lg relative", fi, ke, POLNAME[pol], rc),
+                                 "<= 1e-9 (textbook recursion in long double: locked = coefficients frozen, history advances)", detail("reference_coeffs", fi, ke));
+                        return false;
                     }
-                    // agreement with the per-sample drive under the same lock pattern
-                    const ld sc = mt.ysc[k] + std::abs(d[k]);
-                    const ld dy = std::abs(TT<T>::up(y[i]) - TT<T>::up(mt.y[k]));
-                    if (!same_bits(y[i], mt.y[k])) same = false;
-                    if (sc > 0) ctx.worst("hist: |y_frame - y_per-sample| / (sum|c||x| + |d|)", (double)(dy / sc));
-                    if (!(dy <= REL * sc)) {
-                        ctx.fail(site, fmt("y[%d] = %.17Lg in this history, %.17Lg when driven sample by sample with the same lock pattern", k, TT<T>::up(y[i]).real(), TT<T>::up(mt.y[k]).real()),
-                                 "the a-priori output does not depend on the framing", detail(locked ? "locked_fir" : "framing", fi, k));
-                        return;
-                    }
-                    // independent oracle: the lock-aware long-double recursion, sample by sample
-                    if (so.ref_allowed) {
-                        if (!rt.valid[k]) ++refskip;
-                        else {
-                            ++refcmp;
-                            const ld ry = rt.ys[k] > 0 ? std::abs(TT<T>::up(y[i]) - rt.y[k]) / rt.ys[k] : 0;
-                            const ld re = rt.ys[k] > 0 ? std::abs(TT<T>::up(e[i]) - rt.e[k]) / rt.ys[k] : 0;
-                            ctx.worst(refkey, (double)std::max(ry, re));
-                            if (ry > REL || re > REL) {
-                                ctx.fail(site, fmt("sample %d of the history: relative deviation from the lock-aware reference recursion y %.3Lg e %.3Lg (y = %.17Lg, reference %.17Lg)", k, ry, re,
-                                                   TT<T>::up(y[i]).real(), rt.y[k].real()),
-                                         "<= 1e-9 (textbook recursion in long double: locked = coefficients frozen, history advances)", detail("reference", fi, k));
-                                return;
-                            }
-                        }
-                    }
-                    if (locked) {
-                        // exactly the FIR filter with coeffs(): long-double FIR over the true input history
+                    return true;
+                };
+                // locked frame = the fixed FIR filter with the given coeffs() value over the true input history
+                auto check_fir = [&](const base_array<T>& c, const base_array<T>& y, int p0, int len, int fi, const char* when) -> bool {
+                    for (int i = 0; i < len; ++i) {
+                        const int k = p0 + i;
                         cld yp = 0;
                         ld ysc = 0;
                         for (int j = 0; j < L && j <= k; ++j) {
-                            yp += TT<T>::up(cb[j]) * x[k - j];
-                            ysc += std::abs(TT<T>::up(cb[j])) * std::abs(x[k - j]);
+                            yp += TT<T>::up(c[j]) * x[k - j];
+                            ysc += std::abs(TT<T>::up(c[j])) * std::abs(x[k - j]);
                         }
                         const ld err = std::abs(TT<T>::up(y[i]) - yp);
                         if (ysc > 0) ctx.worst("locked frame |y - FIR(coeffs)| / (eps*sum|c||x|)", (double)(err / ((ld)EPS * ysc)));
                         if (!(err <= (8 + 2 * L) * (ld)EPS * ysc)) {
-                            ctx.fail(site, fmt("locked frame: y[%d] = %.17Lg, FIR with coeffs() gives %.17Lg", k, TT<T>::up(y[i]).real(), yp.real()),
+                            ctx.fail(site, fmt("locked frame: y[%d] = %.17Lg, FIR with the coeffs() read %s the frame (policy %s) gives %.17Lg", k, TT<T>::up(y[i]).real(), when, POLNAME[pol], yp.real()),
                                      "locked filter = fixed FIR with coeffs()", detail("locked_fir", fi, k));
+                            return false;
+                        }
+                    }
+                    return true;
+                };
+                bool stop = false;
+                base_array<T> last_read;
+                int last_read_frame = -2;
+                for (int fi = 0; fi < F && !stop; ++fi) {
+                    const bool locked = (lk >> fi) & 1;
+                    const int len = fs[fi] * gs;
+                    f.lock(locked);
+                    base_array<T> cb;
+                    if (pol == POL_EVERY) {
+                        cb = f.coeffs();
+                        if (!check_read(cb, fi, pos - 1)) return;
+                    }
+                    base_array<T> y, e;
+                    f.process(to_frame<T>(x, pos, pos + len), to_frame<T>(d, pos, pos + len), y, e);
+                    ++ctx.transitions;
+                    ++frames;
+                    ctx.state(f.state_hash(cfg_hash));
+                    if (y.size() != len || e.size() != len) {
+                        ctx.fail(site, fmt("result sizes y=%d e=%d", y.size(), e.size()), fmt("%d, %d", len, len), detail("size", fi, pos));
+                        return;
+                    }
+                    bool same = true;
+                    for (int i = 0; i < len; ++i) {
+                        const int k = pos + i;
+                        if (!TT<T>::fin(y[i]) || !TT<T>::fin(e[i])) {
+                            if (so.ref_allowed) {
+                                ctx.fail(site, "non-finite y/e for a stable configuration", "finite", detail("finite", fi, k));
+                                return;
+                            }
+                            stop = true;
+                            break;
+                        }
+                        const T ee = TT<T>::down(d[k]) - y[i];
+                        if (!same_bits(ee, e[i])) {
+                            ctx.fail(site, fmt("e[%d] differs from d - y in a %d-sample frame", i, len), "e[k] = d[k] - y[k] bit-exactly", detail("e_identity", fi, k));
+                            return;
+                        }
+                        // independent oracle: the lock-aware long-double recursion, sample by sample
+                        if (so.ref_allowed) {
+                            if (!rt.valid[k]) ++refskip;
+                            else {
+                                ++refcmp;
+                                const ld ry = rt.ys[k] > 0 ? std::abs(TT<T>::up(y[i]) - rt.y[k]) / rt.ys[k] : 0;
+                                const ld re = rt.ys[k] > 0 ? std::abs(TT<T>::up(e[i]) - rt.e[k]) / rt.ys[k] : 0;
+                                ctx.worst(refkey, (double)std::max(ry, re));
+                                if (ry > REL || re > REL) {
+                                    ctx.fail(site, fmt("sample %d of the history: relative deviation from the lock-aware reference recursion y %.3Lg e %.3Lg (y = %.17Lg, reference %.17Lg)", k, ry, re,
+                                                       TT<T>::up(y[i]).real(), rt.y[k].real()),
+                                             "<= 1e-9 (textbook recursion in long double: locked = coefficients frozen, history advances)", detail("reference", fi, k));
+                                    return;
+                                }
+                            }
+                        }
+                        // self-consistency: agreement with the per-sample drive under the same lock pattern
+                        const ld sc = mt.ysc[k] + std::abs(d[k]);
+                        const ld dy = std::abs(TT<T>::up(y[i]) - TT<T>::up(mt.y[k]));
+                        if (!same_bits(y[i], mt.y[k])) same = false;
+                        if (sc > 0) ctx.worst("hist: |y_frame - y_per-sample| / (sum|c||x| + |d|)", (double)(dy / sc));
+                        if (!(dy <= REL * sc)) {
+                            ctx.fail(site, fmt("y[%d] = %.17Lg in this history, %.17Lg when driven sample by sample with the same lock pattern", k, TT<T>::up(y[i]).real(), TT<T>::up(mt.y[k]).real()),
+                                     "the a-priori output does not depend on the framing", detail(locked ? "locked_fir" : "framing", fi, k));
                             return;
                         }
                     }
-                }
-                if (stop) break;
-                // coefficients after the frame against the reference
-                if (so.ref_allowed && rt.valid[pos + len - 1]) {
-                    const base_array<T> ca = f.coeffs();
+                    if (stop) break;
+                    if (same) ++bitident;
+                    if (locked) ++lockedframes;
+                    // coeffs() reads of this frame according to the policy
                     const int ke = pos + len - 1;
-                    ld dn = 0;
-                    for (int j = 0; j < L && j < ca.size(); ++j) dn += std::norm(TT<T>::up(ca[j]) - rt.w[(size_t)ke * L + j]);
-                    const ld rc = rt.wn[ke] > 0 ? sqrtl(dn) / rt.wn[ke] : (dn > 0 ? 1 : 0);
-                    ctx.worst(refkey, (double)rc);
-                    if (ca.size() != L || rc > REL) {
-                        ctx.fail(site, fmt("coeffs() after frame %d (sample %d) deviate from the lock-aware reference recursion by %.3Lg relative", fi, ke, rc),
-                                 "<= 1e-9 (textbook recursion in long double: locked = coefficients frozen, history advances)", detail("reference_coeffs", fi, ke));
-                        return;
+                    if (pol == POL_EVERY) {
+                        const base_array<T> ca = f.coeffs();
+                        if (!check_read(ca, fi, ke)) return;
+                        if (locked) {
+                            if (!same_bits(ca, cb)) {
+                                ctx.fail(site, fmt("coeffs() changed during locked frame %d (%d samples)", fi, len), "bit-identical coefficients while locked", detail("locked_coeffs", fi, pos));
+                                return;
+                            }
+                            if (!check_fir(cb, y, pos, len, fi, "before")) return;
+                        }
+                    } else if (pol == POL_AFTER_LOCKED && locked) {
+                        const base_array<T> ca = f.coeffs();
+                        if (!check_read(ca, fi, ke)) return;
+                        if (!check_fir(ca, y, pos, len, fi, "after")) return;
+                        if (last_read_frame == fi - 1 && !same_bits(ca, last_read)) {
+                            ctx.fail(site, fmt("coeffs() changed between the reads after locked frames %d and %d", fi - 1, fi), "bit-identical coefficients while locked",
+                                     detail("locked_coeffs", fi, pos));
+                            return;
+                        }
+                        last_read = ca;
+                        last_read_frame = fi;
                     }
+                    pos += len;
                 }
-                if (same) ++bitident;
-                if (locked) {
-                    ++lockedframes;
-                    if (!same_bits(f.coeffs(), cb)) {
-                        ctx.fail(site, fmt("coeffs() changed during locked frame %d (%d samples)", fi, len), "bit-identical coefficients while locked", detail("locked_coeffs", fi, pos));
-                        return;
-                    }
+                if (stop) {
+                    ctx.note("adapt.hist: history left the finite range (unstable step), not judged");
+                    continue;
                 }
-                pos += len;
+                // the read at the very end (the only one under POL_END): reference, FIR of a locked last frame, per-sample drive
+                const base_array<T> cf = f.coeffs();
+                if (!check_read(cf, F - 1, n - 1)) return;
+                ld cn = 0, dn = 0;
+                for (int j = 0; j < L && j < mt.final_coeffs.size(); ++j) {
+                    cn += std::norm(TT<T>::up(mt.final_coeffs[j]));
+                    dn += std::norm(TT<T>::up(cf[j]) - TT<T>::up(mt.final_coeffs[j]));
+                }
+                if (sqrtl(dn) > REL * sqrtl(cn)) {
+                    ctx.fail(site, fmt("final coeffs() deviate from the per-sample drive by %.3Lg relative", cn > 0 ? sqrtl(dn / cn) : sqrtl(dn)),
+                             "same coefficients for every framing of the same samples and lock pattern", detail("final_coeffs", F - 1, n - 1));
+                    return;
+                }
+                if (f.state_hash(cfg_hash) == mt.final_state) ctx.note("adapt.hist: final state bit-identical to the per-sample drive");
+                else ctx.note("adapt.hist: final state equal within tolerance only");
+                ++ctx.traces;
             }
-            if (stop) {
-                ctx.note("adapt.hist: history left the finite range (unstable step), not judged");
-                continue;
-            }
-            // final coefficients agree with the per-sample drive
-            const base_array<T> cf = f.coeffs();
-            ld cn = 0, dn = 0;
-            for (int j = 0; j < L && j < cf.size() && j < mt.final_coeffs.size(); ++j) {
-                cn += std::norm(TT<T>::up(mt.final_coeffs[j]));
-                dn += std::norm(TT<T>::up(cf[j]) - TT<T>::up(mt.final_coeffs[j]));
-            }
-            if (cf.size() != L || sqrtl(dn) > REL * sqrtl(cn)) {
-                ctx.fail(site, fmt("final coeffs() deviate from the per-sample drive by %.3Lg relative", cn > 0 ? sqrtl(dn / cn) : sqrtl(dn)),
-                         "same coefficients for every framing of the same samples and lock pattern", detail("final_coeffs", F - 1, n - 1));
-                return;
-            }
-            if (f.state_hash(cfg_hash) == mt.final_state) ctx.note("adapt.hist: final state bit-identical to the per-sample drive");
-            else ctx.note("adapt.hist: final state equal within tolerance only");
-            ++ctx.traces;
-        }
     }
     ctx.note("adapt.hist: frames executed", frames);
     ctx.note("adapt.hist: locked frames", lockedframes);
     ctx.note("adapt.hist: frames bit-identical to the per-sample drive", bitident);
     ctx.note("adapt.hist: history samples compared with the lock-aware long-double recursion", refcmp);
+    for (int p = 0; p < NPOL; ++p) ctx.note(std::string("adapt.hist: coeffs() values checked, read policy ") + POLNAME[p], reads[p]);
     if (refskip) ctx.note("adapt.hist: history samples skipped, reference ill-conditioned (cond > 1e8)", refskip);
     ctx.nontrivial();
 }
